@@ -12,12 +12,19 @@
 (*               over data writes / flush / progress / interfering procedures                     *)
 (* Mode "race":  a second Start Flash while flashes of the first session may still be running,    *)
 (*               then every sequence of data writes / progress notifications / flush              *)
+(* Mode "read":  a Read procedure that needs several data indications; the application serves    *)
+(*               the indications / the final notification (rdata, rcp) and at every point between  *)
+(*               two chunks up to K further control point writes arrive - every opcode, accepted   *)
+(*               and refused variants (wrong length, start > end, outside the white list)          *)
+(* Mode "busy":  the same interference (incl. Get CRC) and progress reports while a flash is        *)
+(*               running and a page is partly filled                                               *)
 (* Mode "wide":  for -simulate: any op of the wide alphabet (all opcodes 0..10, 255, all lengths   *)
 (*               0..20, all boundary addresses, data 0..2*PageSize+1)                              *)
 EXTENDS Integers, Sequences, FiniteSets, TLC, Json
 
 CONSTANTS RegionCodes,   \* a TLC config file cannot hold tuples: region <<start, end>> is written start * 1000 + end
-          PageSize, AddrSize, D, Mode
+          PageSize, AddrSize, D, Mode,
+          K              \* modes "read"/"busy": number of interfering control point writes per behaviour
 Regions == {<<c \div 1000, c % 1000>> : c \in RegionCodes}
 
 VARIABLE hist
@@ -61,7 +68,29 @@ RaceOps ==
     ELSE IF Len(hist) = 3 THEN {Cp(3, L1, Lo, 0), Cp(3, L1, Lo + P, 0)}
     ELSE {<<"data", 1>>, <<"data", P>>, <<"progress">>, Cp(5, 1, 0, 0)}
 
+\* every opcode, in a variant the bootloader should accept and in variants it has to refuse
+Interfere ==
+    {Cp(0, 1, 0, 0), Cp(0, 2, 0, 0), Cp(2, 1, 0, 0), Cp(2, 3, 0, 0), Cp(4, 1, 0, 0), Cp(4, 2, 0, 0), Cp(5, 1, 0, 0),
+     Cp(7, 1, 0, 0), Cp(7, 2, 0, 0), Cp(9, 1, 0, 0), Cp(255, L2, Lo, Hi), Cp(0, 0, 0, 0)}
+    \cup {Cp(1, L2, Lo, Hi), Cp(1, L2, Lo - 1, Hi), Cp(1, L2, Far, Far + P), Cp(1, L2, Lo + 2, Lo), Cp(1, L1, Lo, 0)}
+    \cup {Cp(3, L1, Lo, 0), Cp(3, L1, Far, 0), Cp(3, 2, Lo, 0), Cp(6, L1, Lo, 0), Cp(6, 5, Lo, 0)}
+    \cup {Cp(8, L2, Lo + 1, Lo + P), Cp(8, L2, Far, Far + 2 * P), Cp(8, L2, Lo - 1, Lo + P), Cp(8, L2, Lo + 2, Lo),
+          Cp(8, L2 - 1, Lo, Hi), Cp(8, L2 + 1, Lo, Hi)}
+    \cup {<<"data", 1>>}
+Served(x)  == x[1] \in {"rdata", "rcp", "progress"}
+NInterfere == Cardinality({i \in 2..Len(hist) : hist[i] \in Interfere})
+ReadOps ==
+    IF Len(hist) = 0 THEN {Cp(8, L2, Lo, Hi)}
+    ELSE {<<"rdata", 3>>, <<"rcp">>} \cup (IF NInterfere < K THEN Interfere ELSE {})
+BusyOps ==
+    IF Len(hist) = 0 THEN {Cp(3, L1, Lo, 0)}
+    ELSE IF Len(hist) = 1 THEN {<<"data", P + 1>>}
+    ELSE {<<"progress">>, <<"data", 1>>, <<"data", P>>, Cp(5, 1, 0, 0), <<"rcp">>, <<"rdata", 3>>}
+         \cup (IF NInterfere < K THEN Interfere ELSE {})
+
 Alphabet == IF Mode = "bfs" THEN Small
+            ELSE IF Mode = "read" THEN ReadOps
+            ELSE IF Mode = "busy" THEN BusyOps
             ELSE IF Mode = "race" THEN RaceOps
             ELSE IF Mode = "flash" THEN (IF hist = <<>> THEN StartFlashes ELSE FlashOps)
             ELSE Wide
